@@ -18,6 +18,7 @@ import (
 	"strings"
 	"sync"
 
+	"storj.io/drpc"
 	"storj.io/drpc/drpcerr"
 	"storj.io/drpc/drpcstream"
 	"storj.io/drpc/drpcwire"
@@ -1101,6 +1102,85 @@ func recvFlushParked(id string, how string, cause string, raw bool) runner.Resul
 	return res
 }
 
+// blockFailEnc is an encoding whose Marshal waits for a signal and then rejects the message.
+type blockFailEnc struct {
+	entered chan struct{}
+	release chan struct{}
+}
+
+func (e blockFailEnc) Marshal(msg drpc.Message) ([]byte, error) {
+	close(e.entered)
+	<-e.release
+	return nil, errors.New("encoder rejects the message")
+}
+func (e blockFailEnc) Unmarshal(buf []byte, msg drpc.Message) error {
+	return payload.Enc{}.Unmarshal(buf, msg)
+}
+
+// failedSendWithReceive: the invoke is buffered (as a connection leaves it), the stream's first send
+// is inside its encoder when a receive is issued on another goroutine, and the encoder then rejects the
+// message. One of the two calls has to put the buffered invoke on the wire, or the receive waits for
+// a peer that was never told about the rpc.
+func failedSendWithReceive(id string, manual bool) runner.Result {
+	var sink lockedBuffer
+	wr := drpcwire.NewWriter(&sink, 1<<20)
+	st := drpcstream.NewWithOptions(context.Background(), streamID, wr, drpcstream.Options{ManualFlush: manual})
+	if err := st.RawWrite(drpcwire.KindInvoke, []byte("/rpc")); err != nil {
+		return runner.Inconcl(id, "setup write failed: "+err.Error())
+	}
+	enc := blockFailEnc{entered: make(chan struct{}), release: make(chan struct{})}
+	d := []byte("x")
+	send := rig.Go("send", func() (interface{}, error) { return nil, st.MsgSend(&d, enc) })
+	if s, _ := census.QuiesceOr(enc.entered, rig.Watchdog); s != "ready" {
+		close(enc.release)
+		return runner.Inconcl(id, "the send did not reach its encoder")
+	}
+	recv := rig.Go("recv", func() (interface{}, error) {
+		var m []byte
+		return nil, st.MsgRecv(&m, payload.Enc{})
+	})
+	census.Quiesce(rig.Watchdog)
+	close(enc.release)
+	census.Quiesce(rig.Watchdog)
+	where := fmt.Sprintf("[buffered invoke, first send inside its encoder, receive issued (manual flush=%v), encoder rejects the message]", manual)
+	var fails []string
+	if !send.Returned() || send.Err == nil {
+		fails = append(fails, fmt.Sprintf("%s: the send returned=%v err=%v, want the encoder's error", where, send.Returned(), send.Err))
+	}
+	if sink.Len() == 0 {
+		fails = append(fails, where+": at quiescence the buffered invoke has not been written although a receive is waiting for the peer's answer")
+	}
+	st.HandlePacket(drpcwire.Packet{ID: drpcwire.ID{Stream: streamID, Message: 1}, Kind: drpcwire.KindMessage, Data: payload.Make(1, 1, 0, 0, 5)})
+	census.Quiesce(rig.Watchdog)
+	if !recv.Returned() || recv.Err != nil {
+		fails = append(fails, fmt.Sprintf("%s: after the peer's message the receive returned=%v err=%v", where, recv.Returned(), recv.Err))
+	}
+	st.Cancel(errCancel)
+	if len(fails) > 0 {
+		return runner.Violation(id, "state-machine:buffered-invoke-not-flushed", strings.Join(fails, "\n"))
+	}
+	res := runner.Hold(id, where, true)
+	res.Events = 3
+	return res
+}
+
+// lockedBuffer is a bytes.Buffer safe for one writer and a reader of Len.
+type lockedBuffer struct {
+	mu sync.Mutex
+	b  bytes.Buffer
+}
+
+func (l *lockedBuffer) Write(p []byte) (int, error) {
+	l.mu.Lock()
+	defer l.mu.Unlock()
+	return l.b.Write(p)
+}
+func (l *lockedBuffer) Len() int {
+	l.mu.Lock()
+	defer l.mu.Unlock()
+	return l.b.Len()
+}
+
 // failKey reduces a failure message to its kind (the part after the position).
 func failKey(s string) string {
 	if i := strings.Index(s, "]: "); i >= 0 {
@@ -1273,6 +1353,11 @@ func gen(tier string, seed uint64) []runner.Scenario {
 				}
 			}
 		}
+	}
+	for _, manual := range []bool{false, true} {
+		manual := manual
+		id := fmt.Sprintf("failed-send-with-receive/manual=%v", manual)
+		out = append(out, runner.Scenario{ID: id, Run: func() runner.Result { return failedSendWithReceive(id, manual) }})
 	}
 	// directed sequences around one parked write: sends, raw writes and terminal calls queue up behind
 	// it while packets arrive, and a receive is issued in that state (it must not wait for the write lock
